@@ -20,5 +20,15 @@ with vlib.Scratch("native", tag="setup") as scr:
 with vlib.Scratch("mir", tag="setup") as scr:
     p, s = mirrun.dump_mir(scr)
     print("mir dump ok in %.1fs" % s)
+# the lock-gated replay builds against a generated copy of parking_lot: warm its dependency cache too
+try:
+    import gated, kprop, subprocess
+    with gated.GatedScratch(tag="setup") as scr:
+        kprop.inject_all(scr, gated.INJ, cfg="test")
+        e = vlib.env_offline({"CARGO_TARGET_DIR": gated.gated_target_dir()})
+        r = subprocess.run(["cargo", "test", "--offline", "--lib", "--no-run"], cwd=scr.dir, env=e, stdout=subprocess.PIPE, stderr=subprocess.STDOUT, text=True)
+        print("gated cache:", "ok" if r.returncode == 0 else r.stdout[-400:])
+except Exception as ex:
+    print("gated cache: skipped (%s)" % ex)
 PY
 echo "setup done"
